@@ -13,7 +13,7 @@ from vf.ref import astshape
 
 ID = "C12"
 BOUNDS = {
-    "quick": "75 near-miss seed documents, each also with its definitions in reverse order (one or two violations of each specified rule) + every ordered pair of 30 of them + type-directed (incl. ill-typed) operations with <=1 deviation + grammar-random executable documents with <=1 deviation + single-token deletions of 12 seeds; rule sets: each of the 32 rules alone, every ordered pair (seeds), full set in 6 orders; max_errors 0..n+1",
+    "quick": "history: every ordered pair (A, B) of the seeds validated in that order on one schema object, B compared with a never-used schema object; 81 near-miss seed documents, each also with its definitions in reverse order (one or two violations of each specified rule) + every ordered pair of 30 of them + type-directed (incl. ill-typed) operations with <=1 deviation + grammar-random executable documents with <=1 deviation + single-token deletions of 12 seeds; rule sets: each of the 32 rules alone, every ordered pair (seeds), full set in 6 orders; max_errors 0..n+1",
     "thorough": "<=2 deviations; every ordered pair of all seeds; rule triples inside the three interference clusters",
 }
 RULE = (
@@ -109,6 +109,14 @@ SEEDS = [
     "fragment F on Query { one(o: {i: $n}) } query ($n: Int) { ...F }",
     "fragment G on A { self { ...H } } fragment H on A { id @skip(if: $s) } query ($s: Boolean!, $o: One) { a { ...G } one(o: $o) }",
     "query ($o: One = {i: 1}, $p: One) { one(o: $o) y: one(o: $p) z: one(o: {i: 1, s: \"x\"}) }",
+    # a fragment name defined twice with different variables / directives / spreads in the two bodies, before and after the operation
+    "fragment F on Query { one(n: $p) } fragment F on Query { one(n: $q) } query Q($q: Int) { ...F }",
+    "fragment F on Query { one(n: $p) } query Q($q: Int) { ...F } fragment F on Query { one(n: $q) }",
+    "fragment F on A { ...G } fragment F on A { id @nope } fragment G on A { name } { a { ...F } }",
+    # definitions the document brings along for names the schema does not know
+    "directive @nope on FIELD { a @nope { id } }",
+    "directive @once on QUERY query @once { a { id @once } }",
+    "type Nope { x: Int } scalar Nope2 query ($v: Nope) { arg(i: 1) a { ... on Nope2 { id } } }",
 ]
 
 
@@ -128,6 +136,8 @@ def shards(tier):
         out.append(("gram", (ki, k)))
     for i in range(0, 12):
         out.append(("tokens", i))
+    for i in range(len(SEEDS)):
+        out.append(("history", i))
     return out
 
 
@@ -145,6 +155,40 @@ def schema_for(name):
             s = execschemas.build(name)
         _schemas[name] = s
     return s
+
+
+_baseline = {}
+
+
+def run_history(i, res, viol):
+    """validate(S, B) is the same before and after S has been used to validate A - for every ordered pair of seeds, on one schema object."""
+    from graphql import build_schema, parse, validate
+
+    if not _baseline:
+        for j, t in enumerate(SEEDS):
+            # each baseline on a schema object that has never validated anything else
+            _baseline[j] = key(validate(build_schema(SCHEMA), parse(t)))
+    s = build_schema(SCHEMA)
+    first = key(validate(s, parse(SEEDS[i])))
+    res.evaluations += 1
+    if first != _baseline[i]:
+        viol("validation_not_deterministic", SEEDS[i], f"two fresh schemas give {first} and {_baseline[i]}")
+        return
+    for j, t in enumerate(SEEDS):
+        got = key(validate(s, parse(t)))
+        res.evaluations += 1
+        res.executions += 1
+        res.transitions += 1
+        if got != _baseline[j]:
+            viol("validation_depends_on_history", t, f"after validating {SEEDS[i]!r} (and {j} other seed documents) on the same schema object: {got}, "
+                 f"on a fresh schema object: {_baseline[j]}")
+            return
+    # and the first document again, after all the others
+    again = key(validate(s, parse(SEEDS[i])))
+    if again != first:
+        viol("validation_depends_on_history", SEEDS[i], f"after validating every other seed on the same schema object: {again}, before: {first}")
+    res.states += 1
+    res.outcome(("history", i, len(first)))
 
 
 def key(errors):
@@ -332,7 +376,7 @@ def run_shard(shard, tier):
     cur = {"schema": "C12"}
 
     def viol(sig, text, summary):
-        res.violation(sig, f"{text!r}: {summary}", {"doc": text, "schema": cur["schema"]})
+        res.violation(sig, f"{text!r}: {summary}", {"doc": text, "schema": cur["schema"], "history": cur.get("history")})
 
     if kind == "seed":
         check_doc(SEEDS[arg], "C12", res, viol, pairs=True, tier=tier)
@@ -343,6 +387,9 @@ def run_shard(shard, tier):
         res.transitions += 1
         if arg == 38:
             res.sample({"document": SEEDS[arg], "rule_sets": "32 singles, ordered pairs, full set in 6 orders, max_errors 0..n+1"})
+    elif kind == "history":
+        cur["history"] = arg
+        run_history(arg, res, viol)
     elif kind == "seedpair":
         i, n2 = arg
         for j in range(n2):
@@ -403,5 +450,8 @@ def replay(payload):
     def viol(sig, text, summary):
         out.append({"signature": sig, "summary": f"{text!r}: {summary}"})
 
+    if payload.get("history") is not None:
+        run_history(payload["history"], res, viol)
+        return out
     check_doc(payload["doc"], payload.get("schema", "C12"), res, viol, pairs=True, tier="thorough")
     return out
